@@ -120,6 +120,24 @@ CHECKS["C05"] = dict(
     technique="Lean 4 proof (field identities for lamination and circuit formulas, shared element-level refinement) + element-permeability correspondence + independent weak-form oracle (static and complex harmonic) on solver output",
 )
 
+CHECKS["C08"] = dict(
+    category="other",
+    text=("C++ memory safety and absence of undefined behaviour are not a theorem about a model; the Lean part "
+          "(Properties/C08.lean over Model/VecIter.lean: vectors with capacity and buffer generation) proves the anchored "
+          "LOGIC mechanisms — the range-for + push_back loop shape of the copy operations reaches a stale-iterator "
+          "dereference (witness and general statement), the indexed loop over the original size is safe for every vector, "
+          "capacity and selection, a clamped cached index is always in range. The property itself is decided on the real "
+          "code by runtime evidence: every scenario family of the other checks (generated problems of all physics through "
+          "mesher and solvers, periodic arc cells, transient heat steps, Lua sessions analysing / loading / querying several "
+          "problems in a row, Lua edit scripts with copy / mirror / rotate) runs on an ASan+UBSan build of xfemm's own C++, "
+          "a subset under valgrind memcheck (uninitialised reads), and tool runs are repeated and byte-compared. Partial by "
+          "nature: sanitizers observe the executions that ran."),
+    design_ref="DESIGN.md section 3, C08",
+    technique="runtime evidence (ASan/UBSan build, valgrind memcheck, determinism by repeated runs) over the scenario families of all checks + Lean 4 proofs of the anchored iterator-invalidation / index-clamp logic",
+    note=("Not a proof of memory safety. Trusted: the sanitizers and valgrind; Triangle (third-party C) is excluded from "
+          "instrumentation. Lean part: kernel + propext/Classical.choice/Quot.sound only."),
+)
+
 NOT_YET = "check not built yet in this round; planned per DESIGN.md section 3 (Lean model + correspondence)"
 
 
